@@ -482,7 +482,7 @@ def main():
                     nontrivial.add(nk)
                 if len(samples) < SAMPLE_LIMIT and res["run"] % 97 == 3:
                     samples.append({"world": world, "variant": variant, "flavour": fl, "run": res["run"], "seed": res["seed"], "status": res["status"],
-                                    "masks": [st.get("maskA"), st.get("maskB")], "ntasks": st.get("ntasks"), "ops": st.get("ops"),
+                                    "masks": [st.get("maskA"), st.get("maskB")], "ntasks": st.get("ntasks"), "program": st.get("digest"),
                                     "sched": {k: st.get(k) for k in ("policy", "sched_steps", "switches", "switches_in_lib", "decisions") if k in st}})
                 for f in findings_of(binary, world, variant, fl, res, []):
                     findings.append(f)
